@@ -105,7 +105,7 @@ Definition site_table : list (string * string * string * string * just * string)
   ("x/aggregate/types/proposal.go", "validateIBC", "index", "denomSplit[0]",
    Benign, "strings.SplitN returns at least one element");
   ("x/aggregate/types/token_pair.go", "TokenPair.GetID", "index", "tp.Denoms[0]",
-   (Guard (@handle_aprop_safe)), "pairs built by the handlers have >= 1 denomination, stored pairs by aenv_wf, genesis pairs by ga_init_safe");
+   (Guard (@handle_aprop_safe, @ga_init_safe)), "pairs built by the handlers have >= 1 denomination, stored pairs by aenv_wf (aggregate_history_safe), genesis pairs by ga_init_safe: REGENERATED per-pair guard of GenesisState.Validate, obligation aggregate_pair_guards_denoms");
   ("x/aggregate/types/utils.go", "EqualMetadata", "index", "a.DenomUnits[i]",
    Benign, "lengths compared equal just above");
   ("x/aggregate/types/utils.go", "EqualMetadata", "index", "b.DenomUnits[i]",
@@ -145,23 +145,23 @@ Definition site_table : list (string * string * string * string * just * string)
   ("x/xibc/clients/light-clients/bsc/types/bsc.go", "Bloom.SetBytes", "panic", "panic(fmt.Sprintf(""bloom bytes too big %d %d"", len(b), len(d)))",
    (Guard (@validate_bsc_facts)), "reached through ToBscHeader only; Header.ValidateBasic rejects len(Bloom) > 256 and len(Nonce) > 8 before converting (validate_bsc_facts); Initialize / UpgradeState do not convert the header");
   ("x/xibc/clients/light-clients/bsc/types/bsc.go", "ParseValidators", "index", "extra[extraVanity : len(extra)-extraSeal]",
-   (Guard (@parse_validators_safe)), "Header.ValidateBasic requires len(Extra) >= 32+65 (validate_bsc_facts), so 32 <= len-65");
+   (Guard (@parse_validators_safe)), "Header.ValidateBasic requires len(Extra) >= extraVanity+extraSeal: REGENERATED guards and constants, obligation bsc_guards_extra (validate_bsc_facts)");
   ("x/xibc/clients/light-clients/bsc/types/bsc.go", "ParseValidators", "index", "result[i]",
    Benign, "i < n = len(validatorBytes)/20 and len(validatorBytes) is a multiple of 20 (checked just above)");
   ("x/xibc/clients/light-clients/bsc/types/bsc.go", "ParseValidators", "index", "validatorBytes[i*addressLength : (i+1)*addressLength]",
    Benign, "i < n = len(validatorBytes)/20 and len(validatorBytes) is a multiple of 20 (checked just above)");
   ("x/xibc/clients/light-clients/bsc/types/client_state.go", "ClientState.Initialize", "div", "m.Header.Height.RevisionHeight % m.Epoch",
-   (Guard (@validate_bsc_facts)), "Validate rejects Epoch = 0 (lemma validate_bsc_facts; used by bsc_initialize_safe / bsc_upgrade_safe)");
+   (Guard (@validate_bsc_facts)), "Validate rejects Epoch = 0: REGENERATED guard of ClientState.Validate, obligation bsc_guards_epoch (lemma validate_bsc_facts; used by bsc_initialize_safe / bsc_upgrade_safe)");
   ("x/xibc/clients/light-clients/bsc/types/client_state.go", "ClientState.UpgradeState", "div", "m.Header.Height.RevisionHeight % m.Epoch",
-   (Guard (@validate_bsc_facts)), "Validate rejects Epoch = 0 (lemma validate_bsc_facts; used by bsc_initialize_safe / bsc_upgrade_safe)");
+   (Guard (@validate_bsc_facts)), "Validate rejects Epoch = 0: REGENERATED guard of ClientState.Validate, obligation bsc_guards_epoch (lemma validate_bsc_facts; used by bsc_initialize_safe / bsc_upgrade_safe)");
   ("x/xibc/clients/light-clients/bsc/types/header.go", "ecrecover", "index", "crypto.Keccak256(pubkey[1:])[12:]",
    Benign, "crypto.Ecrecover returns a 65-byte public key when err == nil; Keccak256 returns 32 bytes");
   ("x/xibc/clients/light-clients/bsc/types/header.go", "ecrecover", "index", "header.Extra[len(header.Extra)-extraSeal:]",
-   Benign, "guarded by the len(header.Extra) < extraSeal test two lines above");
+   (Guard (@bsc_recover_safe)), "guarded by ecrecover's own length test: REGENERATED guard or the validated length extraVanity+extraSeal, obligation bsc_guards_ecrecover (model bsc_recover: Panic below max(extraSeal, 65) unless the guard returned Err)");
   ("x/xibc/clients/light-clients/bsc/types/header.go", "ecrecover", "index", "pubkey[1:]",
    Benign, "crypto.Ecrecover returns a 65-byte public key when err == nil; Keccak256 returns 32 bytes");
   ("x/xibc/clients/light-clients/bsc/types/header.go", "encodeSigHeader", "index", "header.Extra[:len(header.Extra)-65]",
-   (Guard (@bsc_recover_safe)), "only called from ecrecover after its length test (model: bsc_recover returns Err below 65 bytes)");
+   (Guard (@bsc_recover_safe)), "only called from ecrecover after its length test: REGENERATED guard or the validated length extraVanity+extraSeal, obligation bsc_guards_ecrecover (model bsc_recover: Panic below max(extraSeal, 65) unless the guard returned Err)");
   ("x/xibc/clients/light-clients/bsc/types/header.go", "encodeSigHeader", "lib", "rlp.Encode(w, []interface{}{ chainId, header.ParentHash, header.UncleHash, header.Coinbase, header.Root, header.TxHash, header.ReceiptHash, header.Bloom, header...",
    (Guard (@bsc_recover_safe)), "rlp.Encode fails only on a negative big.Int; the chain id is built with SetUint64 (non-negative), all other items are byte slices / uint64 (model: bsc_recover false never panics; the pinned behaviour is bsc_recover true, refuted)");
   ("x/xibc/clients/light-clients/bsc/types/header.go", "encodeSigHeader", "panic", "panic(""can't encode: "" + err.Error())",
@@ -239,7 +239,7 @@ Definition site_table : list (string * string * string * string * just * string)
   ("x/xibc/core/client/keeper/keeper.go", "Keeper.GetClientState", "must", "k.MustUnmarshalClientState(bz)",
    Benign, "see MustUnmarshalClientState");
   ("x/xibc/core/client/keeper/keeper.go", "Keeper.SetAllClientMetadata", "lib", "store.Set(md.GetKey(), md.GetValue())",
-   (Guard (@gx_init_safe)), "GenesisMetadata.Validate rejects empty keys and values (gx_validate => gx_init never reaches the panic)");
+   (Guard (@gx_init_safe)), "GenesisMetadata.Validate rejects empty keys and values: REGENERATED guards, obligation metadata_guards_key (gx_validate => gx_init never reaches the panic)");
   ("x/xibc/core/client/keeper/keeper.go", "Keeper.SetChainName", "lib", "store.Set([]byte(types.KeyClientName), []byte(chainName))",
    Benign, "constant / prefixed non-empty key, non-nil value (marshalled message or []byte(string))");
   ("x/xibc/core/client/keeper/keeper.go", "Keeper.SetClientConsensusState", "lib", "store.Set(host.ConsensusStateKey(height), k.MustMarshalConsensusState(consensusState))",
@@ -253,7 +253,7 @@ Definition site_table : list (string * string * string * string * just * string)
   ("x/xibc/core/client/keeper/keeper.go", "Keeper.clearClientStore", "lib", "store.Delete(key)",
    Benign, "constant / prefixed non-empty key, non-nil value (marshalled message or []byte(string))");
   ("x/xibc/core/client/keeper/relayer.go", "Keeper.RegisterRelayers", "lib", "store.Set([]byte(address), irBz)",
-   (Guard (@gx_init_safe)), "the address is the store key: proposals (ValidateBasic) and, since d9df21a, the genesis validation (IdentifiedRelayer.Validate, model relayer_ok) require a bech32 address, which is never empty (handle_xprop_safe; gx_init_safe with relayer_check = true; the pinned behaviour is refuted in C15_xibc_genesis_relayer_refuted)");
+   (Guard (@relayer_validate_facts, @gx_init_safe)), "the address is the store key (modelled: Panic on an empty address, handle_xprop_gen / gx_init): proposals (ValidateBasic) and, since d9df21a, the genesis validation (IdentifiedRelayer.Validate, model relayer_ok) parse it with sdk.AccAddressFromBech32, which refuses blank strings (relayer_validate_facts; gx_init_safe with relayer_check = true; the pinned behaviour is refuted in C15_xibc_genesis_relayer_refuted)");
   ("x/xibc/core/client/keeper/relayer.go", "Keeper.RegisterRelayers", "must", "k.cdc.MustMarshal(ir)",
    Benign, "marshalling strings cannot fail");
   ("x/xibc/core/client/proposal_handler.go", "handleCreateClientProposal", "nilrecv", "clientState.GetLatestHeight().String()",
@@ -301,9 +301,9 @@ Definition site_table : list (string * string * string * string * just * string)
   ("x/xibc/core/packet/keeper/keeper.go", "Keeper.SetNextSequenceSend", "lib", "store.Set(host.NextSequenceSendKey(srcChain, dstChain), bz)",
    Benign, "formatted non-empty key, constant / 8-byte value");
   ("x/xibc/core/packet/keeper/keeper.go", "Keeper.SetPacketAcknowledgement", "lib", "store.Set(host.PacketAcknowledgementKey(srcChain, dstChain, sequence), ackHash)",
-   (Guard (@gx_init_safe)), "packet GenesisState.Validate rejects empty data (gx_validate_packet)");
+   (Guard (@gx_init_safe)), "packet GenesisState.Validate rejects empty data: REGENERATED per-element guards, obligations packet_ack_guards_data / packet_commitment_guards_data (model gx_init: Panic on an empty value; gx_init_safe)");
   ("x/xibc/core/packet/keeper/keeper.go", "Keeper.SetPacketCommitment", "lib", "store.Set(host.PacketCommitmentKey(srcChain, dstChain, sequence), commitmentHash)",
-   (Guard (@gx_init_safe)), "packet GenesisState.Validate rejects empty data (gx_validate_packet)");
+   (Guard (@gx_init_safe)), "packet GenesisState.Validate rejects empty data: REGENERATED per-element guards, obligations packet_ack_guards_data / packet_commitment_guards_data (model gx_init: Panic on an empty value; gx_init_safe)");
   ("x/xibc/core/packet/keeper/keeper.go", "Keeper.SetPacketReceipt", "lib", "store.Set(host.PacketReceiptKey(srcChain, dstChain, sequence), []byte{byte(1)})",
    Benign, "formatted non-empty key, constant / 8-byte value")
 ].
